@@ -105,9 +105,19 @@ func (en *Engine) Stress(n, q int, o StressOpt, idx int) {
 	go func() { pw.Wait(); close(done) }()
 	select {
 	case <-done:
-	case <-time.After(LiveBound + timeout):
-		r.stuck = true
-		r.Violation("progress: producers still inside PushTask after %v (timeout %v, context %v)", LiveBound+timeout, timeout, r.G.ErrNow())
+	case <-time.After(LiveBound + min(timeout, time.Second)):
+		// every task returns within a millisecond: a producer that waits this long is not being served
+		r.Violation("progress: producers still inside PushTask after %v (timeout setting %v, context %v)", LiveBound+min(timeout, time.Second), timeout, r.G.ErrNow())
+		mode = 2
+		if !cancelled {
+			r.Cancel(en.ctxErr())
+			cancelled = true
+		}
+		select {
+		case <-done:
+		case <-time.After(LiveBound):
+			r.stuck = true
+		}
 	}
 	if mode == 1 && !r.stuck {
 		// the context is live and every task returns: each accepted task must be started
